@@ -1107,6 +1107,7 @@ func main() {
 			}
 		}()
 	}
+	allTs := ts
 	if only := os.Getenv("C06_ONLY"); only != "" {
 		var l []*tmpl
 		for _, t := range ts {
@@ -1185,6 +1186,7 @@ func main() {
 		"histories":                      int(hist),
 		"histories_per_template":         pt,
 		"templates":                      len(ts),
+		"template_blocks_invalid_when_connected": invalidByConstruction(p, allTs), // read this: a name here must be one the template means to be invalid
 		"histories_headers_first":        int(hfHist),
 		"ties_equal_only_after_rounding": int(ambiguousTies),
 		"watchdog_hits_not_reproduced_in_fresh_process": int(hangsNotReproduced),
@@ -1254,6 +1256,27 @@ func (t *tmpl) oneAhead(a []int) []int {
 		l = append(l, x)
 	}
 	return l
+}
+
+// invalidByConstruction lists, per template, the blocks the reference finds invalid on their own
+// branch (vacuity guard: a block that became invalid by accident shows up here).
+func invalidByConstruction(p *prefix, ts []*tmpl) map[string][]string {
+	out := map[string][]string{}
+	for _, t := range ts {
+		m := p.model.Clone()
+		if t.pre != nil {
+			m = t.pre.model.Clone()
+		}
+		for i, b := range t.blocks {
+			n := m.Add(b)
+			if n == nil {
+				out[t.name] = append(out[t.name], t.names[i]+" (parent not listed before it)")
+			} else if !m.Valid(n) {
+				out[t.name] = append(out[t.name], t.names[i]+": "+m.Why(n))
+			}
+		}
+	}
+	return out
 }
 
 var hfHist int64
